@@ -26,6 +26,7 @@ const (
 	POverlap
 	PExpiredSeen
 	PV6Owners
+	PTailTwin
 )
 
 var ProbeNames = map[int]string{
@@ -36,6 +37,7 @@ var ProbeNames = map[int]string{
 	POverlap:                  "two_clients_had_overlapping_operations",
 	PExpiredSeen:              "operation_met_expired_unswept_name",
 	PV6Owners:                 "run_with_ipv6_owner_addresses",
+	PTailTwin:                 "run_with_ipv4_and_ipv6_owners_sharing_last_four_bytes",
 }
 
 var names = [...]string{"WORKSTATION", "FILESRV", "DOMAIN"}
@@ -46,9 +48,18 @@ var jumpChoices = [...]int64{1e9 + 1, 31e9 + 1, 61e9 + 1, 25*3600e9 + 1, 400e6 +
 // Set per run; runs of one worker process are sequential.
 var v6Addrs bool
 
+// tailTwin: in this run the third address is a genuine (not IPv4-mapped) IPv6 address whose last four bytes are those
+// of the first address: two distinct addresses of different length that share a tail.
+var tailTwin bool
+
+var tailTwinAddr = net.IP{0x20, 0x01, 0x0d, 0xb8, 0, 0, 0, 0, 0, 0, 0, 0, 10, 0, 0, 1}
+
 func addrOf(i, form int) net.IP {
 	if v6Addrs {
 		return net.IP{0xfd, 0, 0, 0, 0, 0, 0, 0, 0, 0, 0, 0, 0, 0, 0, byte(1 + i)}
+	}
+	if tailTwin && i == 2 {
+		return append(net.IP(nil), tailTwinAddr...)
 	}
 	ip := net.IP{10, 0, 0, byte(1 + i)}
 	if form == 1 {
@@ -58,6 +69,9 @@ func addrOf(i, form int) net.IP {
 }
 
 func addrIndex(ip net.IP) int {
+	if len(ip) == 16 && string(ip) == string(tailTwinAddr) {
+		return 2
+	}
 	if len(ip) == 16 && ip[0] == 0xfd && ip[15] >= 1 && ip[15] <= 3 {
 		for _, b := range ip[1:15] {
 			if b != 0 {
@@ -303,9 +317,14 @@ func Run(seed uint64, index int64, o hx.Opts) *hx.Result {
 			clock.ops = append(clock.ops, In{Kind: OpJump, TTL: jumps[i]})
 		}
 		scribbleRun := hx.G(3) == 0
-		v6Addrs = hx.G(4) == 0
+		addrMode := hx.G(4)
+		v6Addrs = addrMode == 0
+		tailTwin = addrMode == 1
 		if v6Addrs {
 			rt.Probe(PV6Owners)
+		}
+		if tailTwin {
+			rt.Probe(PTailTwin)
 		}
 		if o.Scenario != "" {
 			res.Scenario = o.Scenario
